@@ -1102,7 +1102,9 @@ fn twice(value: Fixed) -> Fixed {
 /// Computes midpoint between `a` and `b`, avoiding overflow if the sum
 /// of the high 16 bits exceeds `i16::MAX`.
 fn midpoint(a: Fixed, b: Fixed) -> Fixed {
-    a + half(b - a)
+    // FreeType divides the sum in C, which truncates toward zero. Widen
+    // so that the sum cannot overflow.
+    Fixed::from_bits(((a.to_bits() as i64 + b.to_bits() as i64) / 2) as i32)
 }
 
 #[cfg(test)]
